@@ -12,7 +12,7 @@ From Boltons Require Import Lib.Prelude Lib.C11_Iface.
 
 Record iset := mkIS {
   items : list (option K);          (* item_list; None = _MISSING *)
-  imap  : pydict nat;               (* item_index_map: item -> real slot *)
+  imap  : tdict nat;               (* item_index_map: item -> real slot *)
   dead  : list (nat * nat)          (* dead_indices: [start, stop) runs *)
 }.
 
@@ -54,7 +54,7 @@ Fixpoint enumerate_from {A} (i : nat) (l : list A) : list (nat * A) :=
   match l with [] => [] | x :: r => (i, x) :: enumerate_from (S i) r end.
 
 (* for i, item in enumerate(xs): index_map[item] = i *)
-Definition remap (m : pydict nat) (xs : list K) : pydict nat :=
+Definition remap (m : tdict nat) (xs : list K) : tdict nat :=
   fold_left (fun m ix => d_set m (snd ix) (fst ix)) (enumerate_from 0 xs) m.
 
 (* for i, item in enumerate(vals): items[i] = item *)
@@ -119,7 +119,7 @@ Definition m_cull (c : cfg) (s : iset) : iset :=
       else if max_dead_intervals c <? length (dead s) then m_compact s
       else if length (items s) <? compaction_factor c * dead_count s then m_compact s
                                    (* dead_count > len(items) / _COMPACTION_FACTOR *)
-      else match last (items s) (Some 0) with
+      else match last (items s) (Some 0%N) with
            | Some _ => s
            | None =>
                let nd := leading_none (rev (items s)) in
@@ -215,7 +215,7 @@ Definition m_reverse (s : iset) : iset :=
   let rl := rev (m_live s) in
   mkIS (map Some rl) (remap (imap s) rl) [].
 
-Definition slot_eqb : option K -> option K -> bool := option_eqb Nat.eqb.
+Definition slot_eqb : option K -> option K -> bool := option_eqb N.eqb.
 
 Definition m_sort (s : iset) (reverse : bool) : iset :=
   let sl := py_sorted (m_live s) reverse in
